@@ -277,66 +277,6 @@ pub fn run(mode: Mode, tier: Tier, seed: u64) -> i32 {
         total.merge(st);
     }
 
-    // ---- token prefix tree ----------------------------------------------------------
-    let headers: Vec<(&str, usize, usize)> = match tier {
-        // (header, depth below the empty body, depth below each seed)
-        Tier::Quick => vec![("A B", 7, 5), ("A", 6, 4), ("A B Q", 6, 4)],
-        // the last entry is an attempt one level deeper under the remaining wall time: if the cap
-        // stops it, the run reports the cap and is exhaustive only to the depths above
-        Tier::Thorough => vec![("A B", 8, 6), ("A", 7, 5), ("A B Q", 7, 5), ("A B", 9, 0)],
-    };
-    for (hdr, depth0, depth_seed) in &headers {
-        // unit of work: (seed, first token); the subtree below is walked sequentially
-        let units: Vec<(usize, usize, usize)> =
-            (0..SEEDS.len()).flat_map(|s| (0..SIGMA.len() + EXTRA.len()).flat_map(move |t| (0..SIGMA.len()).map(move |t2| (s, t, t2)))).collect();
-        let label = format!("token tree: header '{hdr}', {} tokens, depth {depth0} below the empty body and {depth_seed} below each of {} seed prefixes (pruned where the parser did not reach the end of the text)", SIGMA.len(), SEEDS.len() - 1);
-        let st = par_range(&label, units.len() as u64, &deadline, |u, st| {
-            let (s, t, t2) = units[u as usize];
-            let depth = if s == 0 { *depth0 } else { *depth_seed };
-            if depth == 0 {
-                return;
-            }
-            let first = if t < SIGMA.len() { SIGMA[t] } else { EXTRA[t - SIGMA.len()] };
-            let mut text = format!("{hdr}\n{}", SEEDS[s]);
-            let mut rendered = HashSet::new();
-            if u == 0 {
-                // the roots themselves
-                for sd in SEEDS {
-                    let t = format!("{hdr}\n{sd}");
-                    check_text(mode, &t, 0, &mut rendered, st);
-                }
-            }
-            if !(first == "\n" || text.ends_with('\n')) {
-                text.push(' ');
-            }
-            text.push_str(first);
-            // the extra reserved words only replace their class representative at shallow depth
-            let d = if t < SIGMA.len() { depth - 1 } else { (depth - 1).min(2) };
-            let before = st.evals;
-            let order = (s as u64) << 40 | (t as u64) << 32 | (t2 as u64) << 24;
-            // the node of the first token is checked by the unit with t2 == 0; every unit needs its
-            // parse result to know whether the subtree exists
-            let o1 = if t2 == 0 { check_text(mode, &text, order, &mut rendered, st) } else { parse_obs(&text) };
-            if d == 0 || !o1.eof_pulled || o1.caught.is_some() {
-                if t2 == 0 {
-                    st.witness(if d == 0 { "leaf_at_depth_bound" } else { "subtree_pruned_parser_did_not_reach_end" });
-                }
-                st.space(&format!("token tree nodes (texts), header '{hdr}'"), st.evals - before);
-                return;
-            }
-            let second = SIGMA[t2];
-            if !(second == "\n" || first == "\n") {
-                text.push(' ');
-            }
-            text.push_str(second);
-            walk(mode, &mut text, second == "\n", d - 1, &SIGMA, order + 2, &mut rendered, st, &deadline);
-            let nodes = st.evals - before;
-            st.space(&format!("token tree nodes (texts), header '{hdr}'"), nodes);
-            st.max_depth = st.max_depth.max(depth as u64);
-        });
-        total.merge(st);
-    }
-
     // ---- single edits of valid programs (C12 only) ------------------------------------
     if mode == Mode::C12 {
         let space = valid_programs();
@@ -423,6 +363,66 @@ pub fn run(mode: Mode, tier: Tier, seed: u64) -> i32 {
             total.merge(st);
         }
     }
+    // ---- token prefix tree ----------------------------------------------------------
+    let headers: Vec<(&str, usize, usize)> = match tier {
+        // (header, depth below the empty body, depth below each seed)
+        Tier::Quick => vec![("A B", 7, 5), ("A", 6, 4), ("A B Q", 6, 4)],
+        // the last entry is an attempt one level deeper under the remaining wall time: if the cap
+        // stops it, the run reports the cap and is exhaustive only to the depths above
+        Tier::Thorough => vec![("A B", 8, 6), ("A", 7, 5), ("A B Q", 7, 5), ("A B", 9, 0)],
+    };
+    for (hdr, depth0, depth_seed) in &headers {
+        // unit of work: (seed, first token); the subtree below is walked sequentially
+        let units: Vec<(usize, usize, usize)> =
+            (0..SEEDS.len()).flat_map(|s| (0..SIGMA.len() + EXTRA.len()).flat_map(move |t| (0..SIGMA.len()).map(move |t2| (s, t, t2)))).collect();
+        let label = format!("token tree: header '{hdr}', {} tokens, depth {depth0} below the empty body and {depth_seed} below each of {} seed prefixes (pruned where the parser did not reach the end of the text)", SIGMA.len(), SEEDS.len() - 1);
+        let st = par_range(&label, units.len() as u64, &deadline, |u, st| {
+            let (s, t, t2) = units[u as usize];
+            let depth = if s == 0 { *depth0 } else { *depth_seed };
+            if depth == 0 {
+                return;
+            }
+            let first = if t < SIGMA.len() { SIGMA[t] } else { EXTRA[t - SIGMA.len()] };
+            let mut text = format!("{hdr}\n{}", SEEDS[s]);
+            let mut rendered = HashSet::new();
+            if u == 0 {
+                // the roots themselves
+                for sd in SEEDS {
+                    let t = format!("{hdr}\n{sd}");
+                    check_text(mode, &t, 0, &mut rendered, st);
+                }
+            }
+            if !(first == "\n" || text.ends_with('\n')) {
+                text.push(' ');
+            }
+            text.push_str(first);
+            // the extra reserved words only replace their class representative at shallow depth
+            let d = if t < SIGMA.len() { depth - 1 } else { (depth - 1).min(2) };
+            let before = st.evals;
+            let order = (s as u64) << 40 | (t as u64) << 32 | (t2 as u64) << 24;
+            // the node of the first token is checked by the unit with t2 == 0; every unit needs its
+            // parse result to know whether the subtree exists
+            let o1 = if t2 == 0 { check_text(mode, &text, order, &mut rendered, st) } else { parse_obs(&text) };
+            if d == 0 || !o1.eof_pulled || o1.caught.is_some() {
+                if t2 == 0 {
+                    st.witness(if d == 0 { "leaf_at_depth_bound" } else { "subtree_pruned_parser_did_not_reach_end" });
+                }
+                st.space(&format!("token tree nodes (texts), header '{hdr}'"), st.evals - before);
+                return;
+            }
+            let second = SIGMA[t2];
+            if !(second == "\n" || first == "\n") {
+                text.push(' ');
+            }
+            text.push_str(second);
+            walk(mode, &mut text, second == "\n", d - 1, &SIGMA, order + 2, &mut rendered, st, &deadline);
+            let nodes = st.evals - before;
+            st.space(&format!("token tree nodes (texts), header '{hdr}'"), nodes);
+            st.max_depth = st.max_depth.max(depth as u64);
+        });
+        total.merge(st);
+    }
+
     total.sample(|| json!({"token_tree_node": "A B\nloop ( a , 2 )\n0 0\nend loop", "note": "every node of the prefix tree is one text handed to from_str"}));
 
     let required: Vec<&'static str> = match mode {
